@@ -366,8 +366,8 @@ def m_set(eng, st, args, kwargs, node):
 def m_ordereddict(eng, st, args, kwargs, node):
     if args:
         raise Unsupported("OrderedDict(args)")
-    keys = st.alloc(HSeq(0, lambda k: VLabel(z3.Const("nokey", Label)), etype=None))
-    return st.alloc(HDict(lambda q: z3.BoolVal(False), lambda q: VNone(), keys))
+    keys = st.alloc(HSeq(0, lambda k: VLabel(z3.Const("nokey", Label)), etype=T.label))
+    return st.alloc(HDict(lambda q: z3.BoolVal(False), lambda q: VInt(0), keys, T.label, T.int))
 
 
 def m_dict_keys(eng, st, recv, args, kwargs, node):
@@ -634,10 +634,11 @@ def m_listcomp(eng, st, node):
         src = seq_of(eng, st, it, node)
     n = z3.simplify(src.len)
     sg = src.get
+    snap = st.fork()       # closures evaluate in the state of the comprehension, not in later (mutated) states
 
     def bind(k, silent):
-        s = st.fork()
-        s.silent = st.silent + (1 if silent else 0)
+        s = snap.fork()
+        s.silent = snap.silent + (1 if silent else 0)
         eng.assign(gen.target, sg(k), s, node)
         return s
 
@@ -684,8 +685,10 @@ def m_dictcomp(eng, st, node):
         src = seq_of(eng, st, it, node)
     n, sg = src.len, src.get
 
+    snap = st.fork()
+
     def kv(k):
-        s = st.fork()
+        s = snap.fork()
         s.silent += 1
         eng.assign(gen.target, sg(k), s, node)
         return eng.ev(node.key, s), eng.ev(node.value, s)
